@@ -1362,3 +1362,30 @@ func isStraightArith(f *ssa.Function) bool {
 	}
 	return true
 }
+
+// isPurePredicate: a loop-free function of package pkgPath without receiver that returns one bool and has no effects:
+// no stores, no map updates, no calls other than builtins and the comparison functions of bytes and strings.
+func isPurePredicate(f *ssa.Function, pkgPath string) bool {
+	if f == nil || f.Blocks == nil || f.Pkg == nil || f.Pkg.Pkg.Path() != pkgPath || f.Signature.Recv() != nil || f.Parent() != nil {
+		return false
+	}
+	if f.Signature.Results().Len() != 1 || !isBoolean(f.Signature.Results().At(0).Type()) || len(f.Blocks) > 8 || len(naturalLoops(f)) > 0 {
+		return false
+	}
+	pure := true
+	eachInstr(f, func(_ *ssa.BasicBlock, in ssa.Instruction) {
+		switch x := in.(type) {
+		case *ssa.Store, *ssa.MapUpdate, *ssa.Go, *ssa.Defer, *ssa.Send, *ssa.Panic:
+			pure = false
+		case ssa.CallInstruction:
+			if _, ok := x.Common().Value.(*ssa.Builtin); ok {
+				return
+			}
+			co := calleeObj(x.Common())
+			if co == nil || co.Pkg() == nil || (co.Pkg().Path() != "bytes" && co.Pkg().Path() != "strings") {
+				pure = false
+			}
+		}
+	})
+	return pure
+}
